@@ -107,6 +107,8 @@ def check_c07(rep):
     common(rep)
     l2_exhaustive(rep, "fault alphabet", dict(MaxMsg=2, MaxEnv=5 if q else 6), "KindsBad", "PolMixed")
     l2_exhaustive(rep, "with connection and message subscribers", dict(MaxMsg=1, MaxEnv=5 if q else 6, ConnSubs="TRUE", MsgSubs="TRUE", MaxTask=11), "KindsBad", "PolIdem", timeout=2400)
+    l2_exhaustive(rep, "a connection subscriber that sends on connect (as the API layer does)",
+                  dict(MaxMsg=3, MaxEnv=5 if q else 6, ConnSubs="TRUE", SubSends="TRUE", MaxTask=12), "KindsOk", "PolIdem", timeout=2400)
     l2_replay(rep, 1500 if q else 30000)
     run_generated(rep, "random fault scripts", PS.gen_scripts("faults", 700 if q else 15000, lib.seed() + 4))
 
